@@ -1664,6 +1664,15 @@ theorem step_good (op : Op) : Good (fun s => step s op) := by
 theorem step_exact (s : State) (op : Op) (hs : Exact s) : Exact (step s op).1 :=
   (step_good op s hs).1
 
+/-- `stepS` adds signatures to what `step` did: content, ids, cache and outcome are those of `step` -/
+theorem stepS_same (s : State) (op : Op) (given) : Same (step s op).1 (stepS s op given).1 := by
+  unfold stepS; simp only; split <;> exact ⟨rfl, rfl⟩
+
+theorem stepS_snd (s : State) (op : Op) (given) : (stepS s op given).2 = (step s op).2 := by
+  unfold stepS; simp only; split
+  · rename_i h; exact h.symm
+  · rename_i e h; exact h.symm
+
 theorem query_same (s : State) (q : Query) : Same s (query s q).1 := by
   rcases query_fst s q with h1 | h1 <;> rw [h1]
   · exact Same.refl s
